@@ -326,6 +326,11 @@ impl cucumber::World for TW {
     }
 }
 
+thread_local! {
+    /// Emit the harness logs at WARN instead of INFO.
+    pub static LOG_AT_WARN: std::cell::Cell<bool> = const { std::cell::Cell::new(false) };
+}
+
 fn emit_logs(_key: &str, _inv: usize, _phase: &str, n: usize) {
     for _i in 0..n {
         #[cfg(feature = "tracing")]
@@ -336,7 +341,11 @@ fn emit_logs(_key: &str, _inv: usize, _phase: &str, n: usize) {
                 inv: _inv,
                 id: id.clone(),
             });
-            tracing::info!("[{id}]");
+            if LOG_AT_WARN.with(std::cell::Cell::get) {
+                tracing::warn!("[{id}]");
+            } else {
+                tracing::info!("[{id}]");
+            }
         }
     }
 }
